@@ -318,7 +318,11 @@ U70_QUICK = {(8, 0), (8, 3), (8, 4), (8, 5), (8, 8), (3, 1), (0, 0)}
 M_BTNODE = KModule("btree_node", "src/btree/node.rs", "verif_btree_node", "btree_node.rs",
                    lambda: "\n".join([("node_harness!(#[kani::unwind(12)] %s, %s);" % (nm, call)) if stub else
                                       ("#[kani::proof]\n#[kani::unwind(12)]\nfn %s() { %s; }" % (nm, call)) for (nm, call, stub, _t) in BT_SHAPES] +
-                                     ["node_harness!(#[kani::unwind(13)] #[kani::stub(super::Node::write_split_child, stub_write_split_child)] u70_insert_node_n%d_at%d, u70_insert_node(%d, %d));" % (n, at, n, at) for (n, at) in U70_SHAPES]))
+                                     ["node_harness!(#[kani::unwind(13)] #[kani::stub(super::Node::write_split_child, stub_write_split_child)] u70_insert_node_n%d_at%d, u70_insert_node(%d, %d));" % (n, at, n, at) for (n, at) in U70_SHAPES] +
+                                     ["node_harness!(#[kani::unwind(13)] #[kani::stub(super::Node::write_split_child, stub_write_split_child)] #[kani::stub(super::Node::create_separator, stub_create_separator)] u71_insert_leaf_n%d, u71_insert_leaf(%d));" % (n, n) for n in range(0, 9)]))
+for _n in range(0, 9):
+    M_BTNODE.harnesses.append(H("u71_insert_leaf_n%d" % _n, "U71", kind="proof", tiers=("quick", "thorough") if _n in (0, 3, 8) else ("thorough",),
+                                shape="Node::insert into a leaf with %d key(s); the key inserted is arbitrary (present or absent, any position)" % _n))
 for (_n, _at) in U70_SHAPES:
     M_BTNODE.harnesses.append(H("u70_insert_node_n%d_at%d" % (_n, _at), "U70", kind="proof", tiers=("quick", "thorough") if (_n, _at) in U70_QUICK else ("thorough",),
                                 shape="Node::insert_node into an inner node with %d separator(s), position %d" % (_n, _at)))
@@ -1061,3 +1065,11 @@ UNIT_META["U70"] = {"functions": ["btree::node::Node::{insert_node, split, shift
 PROPS["C04"]["kani_units"] = list(PROPS["C04"]["kani_units"]) + ["U70"]
 PROPS["C04"]["claim"] = PROPS["C04"]["claim"] + " Insert / split path of inner nodes (Kani, complete over node sizes 0..=8 and every position): Node::insert_node puts the separator handed up by a split child at its position and the new child right of it; a full node is split into two packed nodes with a separator handed further up such that reading left node, separator, right node in order gives exactly the old separators and children with the new ones inserted -- nothing lost, duplicated or reordered; only a full node is split."
 PROPS["C04"]["does_not_cover"] = [x.replace("insert / split path (Node::change)", "leaf-level insert (Node::insert: creates the value entry) and the operation loop of Node::change") for x in PROPS["C04"]["does_not_cover"]]
+
+# ---------------------------------------------------------------- U71 (Kani: Node::insert at leaf level)
+UNIT_META["U71"] = {"functions": ["btree::node::Node::{insert (leaf branch), position, split, shift_from, set_separator, remove_separator, separator_address}"],
+                    "assumes": ["Node::create_separator (writes the value entry: Column::write_new_value_plan / write_existing_value_plan, U8d) and Node::write_split_child replaced by contracts (recorders)",
+                                "one-byte keys 2, 4, .. 2n in the leaf, the inserted key any byte 1..=2n+1 (every present key and every gap); complete over the leaf sizes 0..=ORDER"]}
+PROPS["C04"]["kani_units"] = list(PROPS["C04"]["kani_units"]) + ["U71"]
+PROPS["C04"]["claim"] = PROPS["C04"]["claim"] + " Leaf insert (Kani, complete over leaf sizes 0..=8, any key position): Node::insert of an absent key leaves the keys in ascending order with the new key among them carrying the new value and every old key its old value -- also when the full leaf is split into (left, separator handed up, right); of a present key it changes the value of that key only and tells the value writer which address it replaces; exactly one value entry is written."
+PROPS["C04"]["does_not_cover"] = [x.replace("leaf-level insert (Node::insert: creates the value entry) and the operation loop of Node::change", "the descent of Node::insert into a child and the operation loop of Node::change (which operation goes to which node)") for x in PROPS["C04"]["does_not_cover"]]
